@@ -337,6 +337,7 @@ func TestRegressC02(t *testing.T) { regress(t, "C02", runC02) }
 func runC12(rep Rep, w World) {
 	nt := false
 	s := runHistory(rep, w, func(v *View, op *Op, s *Sys) {
+		v.ForeignObs = s.foreignObs
 		n := monC12(rep, v)
 		if n > 0 {
 			podWrite := false
@@ -361,6 +362,7 @@ func runC12(rep Rep, w World) {
 	defer s.Close()
 	s.OnRecord = func(r *sim.Record, op *Op) {
 		if v := NewView(r); v != nil {
+			v.ForeignObs = s.foreignObs
 			monC12(rep, v)
 		}
 	}
